@@ -227,7 +227,17 @@ class CHECK(core.Check):
         a, w, d = self._args(c)
         if c["kind"] == "bigint":
             return [call(N.wrap1, a, w)]
-        return [call(N.wrap1, a, w), call(N.wrap2, a, w), call(N.delta, d, a, w)]
+        out = [call(N.wrap1, a, w), call(N.wrap2, a, w), call(N.delta, d, a, w)]
+        # the functions are pure: asked again, in another order and after calls with equal-valued arguments of another
+        # type, they must answer the same (a hidden cache / remembered state would show here)
+        for x in (a, w, d):
+            if isinstance(x, (int, F)) and not isinstance(x, bool) and abs(x) < 2 ** 53:
+                call(N.wrap2, float(x), w)
+                call(N.wrap1, a, float(x) if x else w)
+        again = [call(N.delta, d, a, w), call(N.wrap2, a, w), call(N.wrap1, a, w)][::-1]
+        if again != out:
+            out.append("UNSTABLE second round of calls gave %s" % again)
+        return out
 
     # ------------------------------------------------------------------ model
     def requests(self, c):
@@ -280,6 +290,9 @@ class CHECK(core.Check):
         from ioflo.aid import navigating as N
         a, w, d = self._args(c)
         fa, fw = F(a), F(w)
+        for o in out:
+            if o.startswith("UNSTABLE"):
+                return "the same call answered differently the second time: first %s, %s" % (out[:3], o)
         if not all(re.fullmatch(r"-?\d+/\d+", o) for o in out):
             return "result is not a finite number: %s" % out
         r1 = unq(out[0])
